@@ -39,11 +39,19 @@ class World:
     """One directory whose file paths are the URIs' paths, so that FileIds of the CLI and of the
     server coincide."""
 
-    def __init__(self, tmp):
+    STYLES = {"plain": ("docs", "%s.st"), "space": ("my docs", "prog %s.st"), "nonascii": ("dökü", "café_%s.st"),
+              "mixed": ("Docs.v1", "A+%s (copy).ST")}
+
+    def __init__(self, tmp, style="plain"):
+        import urllib.parse
         self.tmp = tmp
-        self.root = os.path.join(tmp, "docs")
+        self.style = style
+        dname, fpat = self.STYLES[style]
+        self.root = os.path.join(tmp, dname)
         os.makedirs(self.root, exist_ok=True)
-        self.uris = {"a": "file://" + os.path.join(self.root, "a.st"), "b": "file://" + os.path.join(self.root, "b.st")}
+        self.fname = {u: fpat % u for u in "ab"}
+        # the URI is the percent-encoded path, as editors send it
+        self.uris = {u: "file://" + urllib.parse.quote(os.path.join(self.root, self.fname[u])) for u in "ab"}
         self.texts = {"a": texts_for("a", "b"), "b": texts_for("b", "a")}
         self.ref_cache = {}
         self.cli_cache = {}
@@ -98,7 +106,7 @@ class World:
         for f in os.listdir(self.root):
             os.unlink(os.path.join(self.root, f))
         for other, text in state.items():
-            open(os.path.join(self.root, other + ".st"), "w").write(text)
+            open(os.path.join(self.root, self.fname[other]), "w").write(text)
         answers = set()
         for _ in range(3):
             r = core.run_cli(["check", self.root], self.tmp)
@@ -109,28 +117,43 @@ class World:
             for code, msg, path, line, col in core.parse_cli_diags(r["err"]):
                 if code in IGNORED_CODES or path is None:
                     continue
-                if os.path.basename(path) == u + ".st":
+                if os.path.basename(path) == self.fname[u]:
                     mine.append((code, line - 1, col - 1))
             answers.add(tuple(sorted(mine)))
         self.cli_cache[key] = answers
         return answers
 
 
-def check_history(world, history, res, tag):
-    """history: list of (op, u, text index or text)."""
+def check_history(world, history, res, tag, versions="increasing"):
+    """history: list of (op, u, text index or text).  versions: how the client numbers them - 'increasing' (one
+    counter), 'per-document' (each document restarts at 1 when it is opened again, as editors do after a close),
+    'constant' (always 1) or 'arbitrary' (any integer, also lower than before)."""
     s = lsp.Session(world.tmp)
     state = {}
     version = 0
+    per_doc = {}
+    vr = core.rng_for("versions", tag, str(history)[:200])
     ok = True
+    res.count("versions:" + versions)
+    res.count("uri-style:" + world.style)
     try:
         for step_i, (op, u, t) in enumerate(history):
             text = world.texts[u][t] if isinstance(t, int) else t
-            version += 1
+            if versions == "increasing":
+                version += 1
+            elif versions == "per-document":
+                per_doc[u] = 1 if op == "open" else per_doc.get(u, 0) + 1
+                version = per_doc[u]
+            elif versions == "constant":
+                version = 1
+            else:
+                version = vr.choice([0, 1, 2, 3, 7, 1000000, -1])
             resp, pubs = world.step(s, op, u, text, version)
             state[u] = text
             res.evaluations += 1
             res.count("steps")
-            case = {"history": [list(h) for h in history[:step_i + 1]], "tag": tag}
+            case = {"history": [list(h) for h in history[:step_i + 1]], "tag": tag, "versions": versions,
+                    "uri_style": world.style}
             if resp is None or resp == "timeout":
                 pm = core.cli_panic(core.ANSI.sub("", s.stderr.decode("utf-8", "replace")))
                 if resp == "timeout" and s.p.poll() is None:
@@ -184,7 +207,8 @@ def classify(world, u, text):
 def shard(shard_i, nshards, payload):
     res = core.Result()
     tmp = core.worker_tmpdir("c11")
-    world = World(tmp)
+    world = World(tmp, ["plain", "space", "nonascii", "mixed"][shard_i % 4])
+    policies = ["increasing", "per-document", "constant", "arbitrary"]
     try:
         alphabet = [(op, u, t) for op in ("open", "change") for u in ("a", "b") for t in range(5)]
         seqs = []
@@ -197,7 +221,7 @@ def shard(shard_i, nshards, payload):
             rng.shuffle(seqs)
             seqs = seqs[:payload["sample"]]
         for i in range(shard_i, len(seqs), nshards):
-            ok = check_history(world, list(seqs[i]), res, "enumerated")
+            ok = check_history(world, list(seqs[i]), res, "enumerated", policies[(i // nshards) % 4])
             if ok:
                 res.distinct.add(core.key_of(seqs[i]))
                 if len(res.samples) < 2:
@@ -226,7 +250,7 @@ def shard(shard_i, nshards, payload):
             for _ in range(rng.randint(4, payload["random_len"])):
                 u = rng.choice("ab")
                 hist.append((rng.choice(["open", "change", "change", "change2"]), u, rng.choice(docs[u])))
-            ok = check_history(world, hist, res, "random")
+            ok = check_history(world, hist, res, "random", policies[(i // nshards) % 4])
             if ok:
                 res.distinct.add(core.key_of("random", i))
     finally:
@@ -343,9 +367,9 @@ def witnesses():
 def replay(case):
     core.build_plc()
     tmp = core.worker_tmpdir("c11r")
-    world = World(tmp)
+    world = World(tmp, case["case"].get("uri_style", "plain"))
     res = core.Result()
     hist = [tuple(h) for h in case["case"]["history"]]
-    ok = check_history(world, hist, res, "replay")
+    ok = check_history(world, hist, res, case["case"].get("tag", "replay"), case["case"].get("versions", "increasing"))
     shutil.rmtree(tmp, ignore_errors=True)
     return ok and not res.violations, str([(v["kind"], v["sig"]) for v in res.violations])[:400]
